@@ -110,6 +110,10 @@ int c_dateutils_getdate(double day, int * date)
 {
     int year, month, nday, nbday;
 
+    /* dates are YYYYMMDD numbers: reject NaN and values that do not fit an int */
+    if(!(day > -2e9 && day < 2e9))
+        return DATEUTILS_ERROR + __LINE__;
+
     year = (int)(day * 1e-4);
     month = (int)(day * 1e-2) - year * 100;
     nday = (int)(day) - year * 10000 - month * 100;
